@@ -5,7 +5,8 @@
    inhabitants, all enumerated in [all_cli]) and every theorem quantifies over the whole type:
    [forallb .. all_cli = true] by vm_compute, lifted with forallb_forall and [all_cli_complete].
    The model reads two facts regenerated from the source on every run (Generated/C32_facts.v): whether the
-   sidecar write and the init-segment write are guarded by an existence test (both false on the pinned tree). *)
+   sidecar write and the init-segment write are guarded by an existence test (both true since the repairs
+   5fdfaf69f and 414c938c4; [decide_g sg fg] is the decision for any setting of the two). *)
 From Coq Require Import List Bool NArith.
 From C2PA Require Import Generated.C32_facts Model.CliPaths Proofs.CliPathsProofs.
 Import ListNotations.
@@ -14,33 +15,43 @@ Import ListNotations.
 Theorem c32_domain_complete : forall r : cli, In r all_cli.
 Proof. exact all_cli_complete. Qed.
 
-(* No Remove / Write / RemoveTree of a path that existed before the run unless --force, outside the two known
-   classes (sidecar file exists, --sidecar, no --force; init segment exists in the fragment output folder). *)
+(* No Remove / Write / RemoveTree of a path that existed before the run unless --force: the whole domain, no
+   excluded class (both existence tests are present in the source: facts sidecar_write_guarded = frag_init_guarded
+   = true, regenerated on every run; the proof is a computation over [decide], so it fails if they flip back). *)
 Theorem c32_no_clobber :
-  forall r, known r = false ->
-  forall e p, In e (decide r) -> destructive e = Some p -> exists_before r p = true -> force r = true.
+  forall r e p, In e (decide r) -> destructive e = Some p -> exists_before r p = true -> force r = true.
 Proof. exact no_clobber_prop. Qed.
 
 (* the same statement in the computed form, with the domain spelled out *)
-Theorem c32_no_clobber_domain : forallb (fun r => known r || no_clobber_b r) all_cli = true.
+Theorem c32_no_clobber_domain : forallb no_clobber_b all_cli = true.
 Proof. exact no_clobber_all. Qed.
 
-(* F-CLI-SIDECAR: `c2patool in.jpg -m m.json -o out.jpg --sidecar` with an existing out.c2pa and no -f *)
-Theorem c32_no_clobber_refuted_sidecar :
-  sidecar_write_guarded = false ->
-  exists r, realisable r = true /\ force r = false /\ In (Write PSidecar) (decide r) /\ exists_before r PSidecar = true.
-Proof. exact sidecar_refuted. Qed.
+(* for every setting of the two guards: clobbering is confined to the class of the missing guard *)
+Theorem c32_no_clobber_any_guards :
+  forall sg fg r, guard_class sg fg r = false ->
+  forall e p, In e (decide_g sg fg r) -> destructive e = Some p -> exists_before r p = true -> force r = true.
+Proof. exact no_clobber_any_guards. Qed.
 
-(* F-CLI-FRAG-INIT: `c2patool init.mp4 -m m.json -o outdir fragment --fragments_glob G` with an existing
-   outdir/<rendition>/init.mp4 and no -f *)
-Theorem c32_no_clobber_refuted_frag_init :
-  frag_init_guarded = false ->
-  exists r, realisable r = true /\ force r = false /\ In (Write PFragInit) (decide r) /\ exists_before r PFragInit = true.
-Proof. exact frag_init_refuted. Qed.
+(* the behaviour before the repairs, stated about the old decision function:
+   F-CLI-SIDECAR (fixed by 5fdfaf69f): `c2patool in.jpg -m m.json -o out.jpg --sidecar`, existing out.c2pa, no -f:
+   the unguarded decision writes the sidecar, the guarded one refuses before writing anything *)
+Theorem c32_old_sidecar_refuted :
+  realisable sidecar_witness = true /\ force sidecar_witness = false
+  /\ In (Write PSidecar) (decide_g false true sidecar_witness) /\ exists_before sidecar_witness PSidecar = true
+  /\ decide_g true true sidecar_witness = [Bail].
+Proof. exact old_sidecar_refuted. Qed.
 
-(* the known classes are exact: on every realisable record, known <-> the property fails *)
-Theorem c32_known_exact : forall r, realisable r = true -> known r = negb (no_clobber_b r).
-Proof. exact known_exact. Qed.
+(* F-CLI-FRAG-INIT (fixed by 414c938c4): fragment mode with an existing outdir/<rendition>/init.mp4, no -f *)
+Theorem c32_old_frag_init_refuted :
+  realisable frag_init_witness = true /\ force frag_init_witness = false
+  /\ In (Write PFragInit) (decide_g true false frag_init_witness) /\ exists_before frag_init_witness PFragInit = true
+  /\ decide_g true true frag_init_witness = [Write PFragSeg; Fail].
+Proof. exact old_frag_init_refuted. Qed.
+
+(* the two old classes were exactly where the old decision clobbered (realisable records) *)
+Theorem c32_old_known_exact :
+  forall r, realisable r = true -> old_known r = negb (no_clobber_of (decide_g false false) r).
+Proof. exact old_known_exact. Qed.
 
 (* a refusal by the tool itself (bail!) happens before anything is modified *)
 Theorem c32_refusal_is_pure : forall r, In Bail (decide r) -> forall e, In e (decide r) -> destructive e = None.
